@@ -76,6 +76,7 @@ class VLoop(asyncio.AbstractEventLoop):
         self.on_task_created = None
         self.on_task_cancel = None
         self.advances = 0
+        self.ties_seen = 0
 
     # -- the event-loop contract used by asyncio.sleep / wait / gather / Queue / Task / Future
     def time(self):
@@ -216,6 +217,9 @@ class VLoop(asyncio.AbstractEventLoop):
                 if h._when < prev._when:
                     i -= 1
                     continue
+                if api is None and type(h._when) in (int, float) and type(prev._when) in (int, float) \
+                        and h._when == prev._when:
+                    self.ties_seen += 1
                 if api is not None and h._when == prev._when:
                     self.n_ties += 1
                     if api.flag("tie%d" % self.n_ties):
